@@ -57,6 +57,7 @@ case_strategy = st.fixed_dictionaries({
     "ratio": st.sampled_from([None, None, None, 1.0]),
     "docov": st.sampled_from([False, False, True]),
     "cli": st.sampled_from([False, False, False, True]),
+    "nullfmt": st.sampled_from([None, "fits", "vot"]),      # with cli: also a FITS / VOTable catalogue with null psf columns
 })
 
 
@@ -336,6 +337,25 @@ def check_case(c):
             if any(o_.uuid not in by_uuid for o_ in slim_out) or (nfit and not slim_out):
                 res.bad("slim-catalogue", "%s: a catalogue file without psf/err columns returned %d rows (%d expected)" % (
                     what, len(slim_out), nfit), **tags)
+            # the same catalogue as a FITS / VOTable file whose psf columns are present but null (astropy hands those
+            # cells over as masked values, not as NaN)
+            fmt = c.get("nullfmt")
+            if fmt and not res.violations:
+                from astropy.table import MaskedColumn
+                t2 = Table.read(catfile)
+                for n_ in ("psf_a", "psf_b", "psf_pa"):
+                    if n_ in t2.colnames:
+                        t2[n_] = MaskedColumn(np.zeros(len(t2)), mask=np.ones(len(t2), dtype=bool), dtype=float)
+                nullf = os.path.join(d, "input_null." + fmt)
+                t2.write(nullf, format={"fits": "fits", "vot": "votable"}[fmt], overwrite=True)
+                null_out = SourceFinder().priorized_fit_islands(path, catalogue=nullf, rms=rms, bkg=0.0, stage=c["stage"], ratio=None,
+                                                                doregroup=c["regroup"], docov=c["docov"], cores=1,
+                                                                **skyimg.cube_kw(c.get("rep")))
+                got_u = [str(o_.uuid).strip() for o_ in null_out]
+                if any(u_ not in by_uuid for u_ in got_u) or (nfit and not null_out) or len(null_out) != len(slim_out):
+                    res.bad("null-psf-catalogue", "%s: a %s catalogue whose psf columns are null returned %d rows (%d without those "
+                            "columns)" % (what, fmt, len(null_out), len(slim_out)), fmt=fmt, **tags)
+                res.label("null-psf-" + fmt)
             # ... and must not change what the complete file gives afterwards
             api = SourceFinder().priorized_fit_islands(path, catalogue=catfile, rms=rms, bkg=0.0, stage=c["stage"],
                                                        ratio=c["ratio"], doregroup=c["regroup"], docov=c["docov"], cores=1, **skyimg.cube_kw(c.get("rep")))
